@@ -11,8 +11,9 @@ What Lean carries:
    particular the single positive literals, which the pinned tree dropped;
  * the specification of the optimum (`Optim.brute`) is a minimum of the documented cost
    (shared cube gates once + one join gate per extra term per output) over ALL families of
-   candidate sublists that realise the functions: it is a lower bound of every realising
-   family and it is attained.
+   candidate sublists that realise the functions (`brute_spec`: for every choice, per output, of
+   a sub-list of the candidates that realises it, the optimum is at most that family's cost,
+   and some such family attains it).
 What Lean does not carry: that HiGHS returns an optimal integral solution of the ILP it is
 given, and that the ILP's constraint encoding (on-set, off-set, parity slack) is equivalent to
 "the family realises the functions" - both are covered by running the real optimizers against
@@ -129,6 +130,100 @@ theorem brute_is_min (isXor : Bool) (fs : List Nat) (items : List (Nat × Nat ×
     · right
       obtain ⟨fam, hfam, he⟩ := List.mem_map.mp h
       exact ⟨fam, hfam, he.symm⟩
+
+/-! ## the families `brute` ranges over are ALL the realising families -/
+
+theorem mem_sublists {α : Type} (l s : List α) : s ∈ sublists l ↔ s.Sublist l := by
+  induction l generalizing s with
+  | nil => simp [sublists]
+  | cons a l ih =>
+    simp only [sublists, List.mem_flatMap, List.mem_cons, List.not_mem_nil, or_false]
+    constructor
+    · rintro ⟨t, ht, hs⟩
+      rcases hs with rfl | rfl
+      · exact ((ih s).mp ht).cons a
+      · exact ((ih t).mp ht).cons_cons a
+    · intro h
+      cases h with
+      | cons _ h' => exact ⟨s, (ih s).mpr h', Or.inl rfl⟩
+      | cons_cons _ h' => exact ⟨_, (ih _).mpr h', Or.inr rfl⟩
+
+/-- whether a list of items realises the truth table f (OR of implicants / XOR) -/
+def realises (isXor : Bool) (f : Nat) (s : List (Nat × Nat × Nat)) : Bool :=
+  if isXor then s.foldl (fun a it => a ^^^ it.2.1) 0 == f
+  else s.all (fun it => it.2.1 &&& f == it.2.1) && s.foldl (fun a it => a ||| it.2.1) 0 == f
+
+/-- the product of the choice lists: one member per output -/
+theorem mem_product {α : Type} (choices : List (List α)) (fam : List α) :
+    fam ∈ choices.foldr (fun ch acc => ch.flatMap (fun s => acc.map (fun fam => s :: fam))) [[]] ↔
+      fam.length = choices.length ∧ ∀ i (h1 : i < fam.length) (h2 : i < choices.length), fam[i] ∈ choices[i] := by
+  induction choices generalizing fam with
+  | nil =>
+    simp only [List.foldr_nil, List.mem_singleton, List.length_nil]
+    constructor
+    · rintro rfl; exact ⟨rfl, fun i h1 _ => by simp at h1⟩
+    · rintro ⟨h, _⟩; exact List.eq_nil_of_length_eq_zero h
+  | cons ch rest ih =>
+    simp only [List.foldr_cons, List.mem_flatMap, List.mem_map, List.length_cons]
+    constructor
+    · rintro ⟨s, hs, fam', hfam', rfl⟩
+      obtain ⟨hl, hall⟩ := (ih fam').mp hfam'
+      refine ⟨by simp [hl], ?_⟩
+      intro i h1 h2
+      cases i with
+      | zero => simpa using hs
+      | succ i =>
+        simp only [List.getElem_cons_succ]
+        exact hall i (by simpa using h1) (by simpa using h2)
+    · rintro ⟨hl, hall⟩
+      cases fam with
+      | nil => simp at hl
+      | cons s fam' =>
+        have h0 := hall 0 (by simp) (by simp)
+        simp only [List.getElem_cons_zero] at h0
+        refine ⟨s, h0, fam', (ih fam').mpr ⟨by simpa using hl, ?_⟩, rfl⟩
+        intro i h1 h2
+        have := hall (i + 1) (by simpa using h1) (by simpa using h2)
+        simpa using this
+
+/-- **the optimum is the minimum over all families**: for every way of choosing, for each output
+    f_i, a sub-list of the candidate items that realises f_i, the reported optimum is at most that
+    family's documented cost; and (unless no such family exists) one of them attains it -/
+theorem brute_spec (isXor : Bool) (fs : List Nat) (items : List (Nat × Nat × Nat)) (join : Nat) :
+    (∀ fam : List (List (Nat × Nat × Nat)), fam.length = fs.length →
+      (∀ i (h1 : i < fam.length) (h2 : i < fs.length), (fam[i]).Sublist items ∧ realises isXor fs[i] fam[i] = true) →
+      brute isXor fs items join ≤ familyCost join fam) ∧
+    (brute isXor fs items join = INF ∨
+      ∃ fam : List (List (Nat × Nat × Nat)), fam.length = fs.length ∧
+        (∀ i (h1 : i < fam.length) (h2 : i < fs.length), (fam[i]).Sublist items ∧ realises isXor fs[i] fam[i] = true) ∧
+        brute isXor fs items join = familyCost join fam) := by
+  have key : ∀ fam : List (List (Nat × Nat × Nat)),
+      fam ∈ (fs.map (fun f => (sublists items).filter (realises isXor f))).foldr
+        (fun ch acc => ch.flatMap (fun s => acc.map (fun fam => s :: fam))) [[]] ↔
+      fam.length = fs.length ∧
+        ∀ i (h1 : i < fam.length) (h2 : i < fs.length), (fam[i]).Sublist items ∧ realises isXor fs[i] fam[i] = true := by
+    intro fam
+    rw [mem_product]
+    simp only [List.length_map, List.getElem_map, List.mem_filter, mem_sublists]
+  have hb : brute isXor fs items join =
+      (((fs.map (fun f => (sublists items).filter (realises isXor f))).foldr
+        (fun ch acc => ch.flatMap (fun s => acc.map (fun fam => s :: fam))) [[]]).map (familyCost join)).foldl
+          (fun b x => min b x) INF := by
+    rw [← foldl_min_map]
+    rfl
+  constructor
+  · intro fam hl h
+    rw [hb]
+    exact (foldl_min_le _ INF).2 _ (List.mem_map_of_mem ((key fam).mpr ⟨hl, h⟩))
+  · rw [hb]
+    rcases foldl_min_attained
+      (((fs.map (fun f => (sublists items).filter (realises isXor f))).foldr
+        (fun ch acc => ch.flatMap (fun s => acc.map (fun fam => s :: fam))) [[]]).map (familyCost join)) INF with h | h
+    · left; exact h
+    · right
+      obtain ⟨fam, hfam, he⟩ := List.mem_map.mp h
+      obtain ⟨hl, hall⟩ := (key fam).mp hfam
+      exact ⟨fam, hl, hall, he.symm⟩
 
 /-- the documented cost of a family: every distinct cube's gates once, plus one join gate per extra
     term in each output -/
